@@ -13,7 +13,9 @@ RULE = ('exhaustive (n, chunk, overlap<chunk) and (n, k, size) grids; all multi-
         'more than one chunk/interval/excerpt produced (counted per distinct case)')
 ASSUMPTIONS = [
     'chunk_size = int(round(600*sample_rate)) is computed by the real reader; the harness picks '
-    'sample_rate = cs/600 and discards cs for which that float expression does not give cs back',
+    'sample_rate = cs/600 and discards cs for which that float expression does not give cs back; further cases use '
+    'sample rates whose 600 s chunk is a fractional number of samples, with the chunk length taken as that '
+    'number rounded to the nearest sample',
     'mtscomp chunk table (reader.chunk_bounds) and its thread pool are outside the model; the '
     'model takes the chunk table as input',
 ]
@@ -46,7 +48,7 @@ def impl(case):
     if op == 'get_chunk_bounds':
         return [int(x) for x in T._get_chunk_bounds(case['sizes'], case['cs'])]
     if op == 'reader_flat':
-        sr = case['cs'] / 600.
+        sr = case.get('sr') or case['cs'] / 600.
         with C.scratch_dir() as d:
             paths, blocks, row0 = [], [], 0
             for i, s in enumerate(case['sizes']):
@@ -72,7 +74,7 @@ def impl(case):
             del r
         return out
     if op == 'reader_array':
-        sr = case['cs'] / 600.
+        sr = case.get('sr') or case['cs'] / 600.
         arr = np.zeros((case['sizes'][0], 2), dtype=np.int16)
         r = T.get_ephys_reader(arr, sample_rate=sr)
         return dict(bounds=[int(x) for x in r.chunk_bounds],
@@ -253,8 +255,21 @@ def _cs_ok(cs):
     return int(round(600.0 * (cs / 600.))) == cs
 
 
+def _with_rate(sr):
+    """a reader case driven by an arbitrary sample rate: the chunk length in samples is the
+    documented 600 s, rounded to the nearest sample (the model takes it as `cs`)"""
+    return dict(sr=sr, cs=int(round(600.0 * sr)))
+
+
+FRACTIONAL_RATES = [0.035, 0.0357, 0.0123, 0.0442, 0.00834, 0.0851, 0.17, 0.0699]   # 600*rate is not a whole number
+
+
 def gen(tier, rng):
     q = tier == 'quick'
+    for i, sr in enumerate(FRACTIONAL_RATES):
+        for sizes in ([100], [30, 55, 41], [7, 160], [64, 64, 3, 90]):
+            yield dict(p=PID, op='reader_flat', sizes=list(sizes), nch=1 + i % 3, offset=0, **_with_rate(sr))
+        yield dict(p=PID, op='reader_array', sizes=[150 + i], **_with_rate(sr))
     N, CS = (40, 14) if q else (70, 24)
     # 1. exhaustive chunk_bounds grid (every residue of n mod (cs-ov), odd overlaps)
     for n in range(0, N + 1):
